@@ -7,7 +7,10 @@ Definition aop_of (n : N) : option aop :=
   | 3 => Some OpOverflowingAdd | 4 => Some OpOverflowingSub | 5 => Some OpCheckedAlignUp
   | 6 => Some OpMask | 7 => Some OpBitAnd | 8 => Some OpBitOr | 9 => Some OpCmp | 10 => Some OpEq
   | 11 => Some OpUncheckedAdd | 12 => Some OpUncheckedSub | 13 => Some OpUncheckedOffsetFrom
-  | 14 => Some OpUncheckedAlignUp | _ => None end.
+  | 14 => Some OpUncheckedAlignUp
+  | 15 => Some OpPartialCmp | 16 => Some OpLt | 17 => Some OpLe | 18 => Some OpGt | 19 => Some OpGe
+  | 20 => Some OpNe | 21 => Some OpMax | 22 => Some OpMin | 23 => Some OpClamp | 24 => Some OpEqSym
+  | _ => None end.
 
 Definition of_opt (o : option N) : obs19 :=
   match o with Some v => {| o_kind := 1; o_val := v; o_flag := false |}
@@ -37,19 +40,35 @@ Definition run_C19 (c : case19) : obs19 :=
   | OpUncheckedSub => of_out (a_unchecked_sub m a b)
   | OpUncheckedOffsetFrom => of_out (a_unchecked_offset_from m a b)
   | OpUncheckedAlignUp => of_out (a_unchecked_align_up m a b)
+  | OpPartialCmp => of_opt (a_partial_cmp a b)
+  | OpLt => of_val (if a_lt a b then 1 else 0)
+  | OpLe => of_val (if a_le a b then 1 else 0)
+  | OpGt => of_val (if a_gt a b then 1 else 0)
+  | OpGe => of_val (if a_ge a b then 1 else 0)
+  | OpNe => of_val (if a_ne a b then 1 else 0)
+  | OpMax => of_val (a_max a b)
+  | OpMin => of_val (a_min a b)
+  | OpClamp => of_out (a_clamp a b (c_c c))
+  | OpEqSym => of_val (if a_eq b a then 1 else 0)
   end.
 
 Definition enc19 (o : obs19) : list tok := [TN (o_kind o); TN (o_val o); bool_tok (o_flag o)].
 
-Definition suite_C19 (inp obs : list tok) : verdict :=
-  match inp, obs with
-  | [TN md; TN op; TN a; TN b], [TN k; TN v; TN f] =>
+(* case: mode op a b     or   mode op a b c   (c: third operand, read by clamp only; 0 when absent) *)
+Definition at_suite_C19 (md op a b cc : N) (obs : list tok) : verdict :=
+  match obs with
+  | [TN k; TN v; TN f] =>
       match aop_of op with
       | Some op' =>
-          if (a <? W64) && (b <? W64) then
-          let c := {| c_mode := if md =? 0 then Debug else Release; c_op := op'; c_a := a; c_b := b |} in
+          if (a <? W64) && (b <? W64) && (cc <? W64) then
+          let c := {| c_mode := if md =? 0 then Debug else Release; c_op := op'; c_a := a; c_b := b; c_c := cc |} in
           let o := {| o_kind := k; o_val := v; o_flag := negb (f =? 0) |} in
           {| v_model := enc19 (run_C19 c); v_ok := ok_C19 c o; v_wellformed := true |}
           else malformed
       | None => malformed end
-  | _, _ => malformed end.
+  | _ => malformed end.
+Definition suite_C19 (inp obs : list tok) : verdict :=
+  match inp with
+  | [TN md; TN op; TN a; TN b] => at_suite_C19 md op a b 0 obs
+  | [TN md; TN op; TN a; TN b; TN cc] => at_suite_C19 md op a b cc obs
+  | _ => malformed end.
